@@ -1,5 +1,6 @@
 import PolyVerif.Lemmas.Uniprot
 import PolyVerif.Lemmas.UniprotDoc
+import PolyVerif.Lemmas.UniprotCut
 /-
 C20 — Uniprot streaming delivers every entry once, in order, and terminates.
 
@@ -340,6 +341,45 @@ theorem damaged_document_delivers (d : Doc) (pre : List DocEntry) (e : DocEntry)
     exact List.prefix_append _ _
   · rw [hf.2.1, List.length_replicate]
     exact (numErrors_pos_iff _).mpr hc
+
+/-! ### truncation is always detected -/
+
+theorem rootEnd_eq (d : Doc) : (renderDoc d).rootEnd = (renderToks (closedToks d.prolog d.entries)).length := by
+  have h1 : renderToks [Tok.close (s "uniprot")] = renderTok (.close (s "uniprot")) := by simp [renderToks]
+  simp only [renderDoc, closedToks, bodyToks, renderToks_append, List.length_append, h1]
+  omega
+
+theorem text_take_closed (d : Doc) (n : Nat) (hn : n ≤ (renderDoc d).rootEnd) :
+    (renderDoc d).text.take n = (renderToks (closedToks d.prolog d.entries)).take n := by
+  have : docToks d = closedToks d.prolog d.entries ++ (if d.trailingNl then [nl] else []) := by
+    simp [docToks, closedToks, bodyToks]
+  show (renderToks (docToks d)).take n = _
+  rw [this, renderToks_append, List.take_append_of_le_length (by rw [← rootEnd_eq]; exact hn)]
+
+/-- TRUNCATION IS ALWAYS DETECTED (by the independent reader).  For every document `d` and every cut before the
+end of its root element — every byte offset `n < rootEnd`, i.e. every proper prefix of the text except those
+that only lack the trailing newline — the trace of the cut text is not that of a well-formed document: it ends
+with an error, or (cut before the root element begins) contains no element at all; and the entries the
+reader has decoded completely by then are the first entries of `d`, in order, with their accessions, names
+and sequence texts. -/
+theorem truncation_detected (d : Doc) (h : WFDoc d) (n : Nat) (hn : n < (renderDoc d).rootEnd) :
+    ¬ Clean (scanDoc ((renderDoc d).text.take n)) ∧
+      completeOf (scanDoc ((renderDoc d).text.take n)).evs <+: d.entries.map DocEntry.toEntry := by
+  rw [text_take_closed d n (Nat.le_of_lt hn)]
+  rw [rootEnd_eq] at hn
+  exact ⟨scan_cut_not_clean d.prolog d.entries h n hn, scan_cut_entries d.prolog d.entries h n hn⟩
+
+/-- CLAUSE 2 FOR TRUNCATED DOCUMENTS, end to end on the reader's trace: a document cut at any offset before
+the end of its root element makes uniprot.Parse — for every capacity of either channel, both consumers and
+every schedule — report at least one error and close both channels -/
+theorem truncated_document_reports (d : Doc) (h : WFDoc d) (n : Nat) (hn : n < (renderDoc d).rootEnd)
+    (seq : Bool) (entCap errCap : Nat) (st : Sys Msg)
+    (hr : Reach (consumer seq) (system entCap errCap (scanDoc ((renderDoc d).text.take n))) st)
+    (hs : Stuck (consumer seq) st) :
+    1 ≤ (recvd 1 st.hist).length ∧ bothClosed st = true ∧
+      deliveredOf st = entriesOf (scanDoc ((renderDoc d).text.take n)).evs := by
+  have hd := damaged_terminates _ (truncation_detected d h n hn).1 seq entCap errCap st hr hs
+  exact ⟨hd.2.2.2.1, hd.2.2.2.2, hd.2.1⟩
 
 /-- the scheduler run used by the driver is a maximal `Step`-path, so the theorems above apply to it -/
 theorem run_is_maximal (seq eager : Bool) (entCap errCap : Nat) (t : Trace) :
